@@ -123,6 +123,30 @@ CHECKS = {
             "Trusted: z3; the read-back path (its fidelity is C01/C02/C03); uuid4 and the clock run natively. Dates with arbitrary offsets are "
             "symbolic only in the thorough tier (quick uses three concrete zoned instants and relies on C09's writer result).",
             "DESIGN.md section 3 C06", ""),
+    "C19": (True,
+            "request_stmt / request_stmtend run symbolically with a recording client: symbolic presence and 1-character ids of the accounts of each "
+            "type, symbolic presence and digits of the three dates, symbolic include flags; with --all the account-info response is a real model "
+            "tree with entries of symbolic kind / account type / id / SVCSTATUS. z3 proves the recorded request tuple is exactly one request per "
+            "configured (resp. ACTIVE) account with that account's type, ids, dates and flags.",
+            "Trusted: z3; stubs init_client (recording) and OFXTree (prepared response); C09 for the date conversion; C06 for tuple -> wire.",
+            "DESIGN.md section 3 C19", ""),
+    "C14": (True,
+            "All four request entry points run symbolically against effect-logging stubs of urllib / file system / response parsing, with symbolic "
+            "dryrun, skip_profile, persist_cookies, cache presence and symbolic configured / advertised URLs (equal or different decided by the "
+            "solver). Obligations are stated on the effect log of every path: no effect on dry run, one POST per request with the OFX headers, "
+            "profile POST to the configured URL with placeholder credentials only, credentialed POST only to the advertised URL, opener built "
+            "over the client's own cookie jar.",
+            "Trusted: z3; the stubs' contracts (urllib.request, pathlib, open, os.replace); stdlib cookie semantics themselves and the "
+            "`requests` transport (not installed) are outside the claim.",
+            "DESIGN.md section 3 C14", ""),
+    "C15": (True,
+            "Inductive step: one real request_profile call from an arbitrary valid pre-state (cache absent or a complete profile with symbolic "
+            "date) against each server behaviour with symbolic dates / status codes - returned profile, date sent, cache post-state. Crash: the "
+            "write-side effect trace extracted from the real code on every run is cut at a symbolic index and a follow-up request is run from "
+            "that state. Interleaving: two writers' extracted steps under a symbolic schedule with symbolic content lengths on a POSIX file model.",
+            "Trusted: z3; file model (open('wb') truncates, write at own offset, os.replace atomic); abstract profile payloads. Thread "
+            "interleavings finer than the file operations are outside the model.",
+            "DESIGN.md section 3 C15", ""),
 }
 
 NOT_YET = {
